@@ -12,13 +12,17 @@ RULE = ("one-pixel-wide skeleton images: square lattices (four-fold junction pix
 TRUSTED = ["cv2.findContours is a black box: no model of it is attempted; what ForSys does with the contours (vertex interning by pixel position, "
            "one cell per contour, mesh edges, border / external flags, the large-area filter) is modelled in Model/Skeleton.v and compared on the actual OpenCV "
            "output; the contours and the hierarchy handed to the filter model and to the D26 predicate are traced by the harness with the parser's own OpenCV call",
+           "the clean-up: Model/SkeletonT3.v get_artifacts / t3 tied exactly to Skeleton.get_artifacts / do_t3_transition, step by step, on value snapshots taken "
+           "around the real calls while the images are parsed (up to 24 contractions and 3 artefact searches per run; a contraction is given the vertex ids and the "
+           "tables restricted to the artefact's neighbourhood, and the harness checks that nothing outside it changed); the inner-triangle pass, the grouping of artefact "
+           "vertices and the removal of isolated cells are not modelled",
            "expected topology of the generated images comes from the lattice generator, not from forsys"]
 ASSUMPTIONS = ["generated images follow the convention of the shipped ones: white frame on the image border, skeleton not touching it; framed images are also padded "
                "literally (frame inside the picture), where tissues of few cells fall under known finding D26"]
 TESTED_NOT_PROVED = ["one cell per enclosed region, border flags, internal interfaces, junction count and their equality under the 8 symmetries / "
                      "padding / mirror_y are evaluated by the oracle (they depend on OpenCV's contour tracing)",
                      "rasterised oblique Voronoi tissues are not generated (no thinning library is installed); oblique lines are covered by the shipped images only"]
-IMPORTS = "From Forsys Require Import Model.CaseUtil Model.Skeleton.\n"
+IMPORTS = "From Forsys Require Import Model.CaseUtil Model.PyList Model.Skeleton Model.SkeletonT3.\n"
 WORKDIR = os.path.join(C.WORK, "skeletons")
 
 SYMS = [("id", lambda a: a), ("rot90", lambda a: np.rot90(a, 1)), ("rot180", lambda a: np.rot90(a, 2)), ("rot270", lambda a: np.rot90(a, 3)),
@@ -149,11 +153,104 @@ def expected_of_spec(spec):
             "internal": len(internal), "degrees": sorted(len(adj[c]) for c in adj)}
 
 
+# ------------------------------------------------------------------ the artefact clean-up against Model/SkeletonT3.v
+T3REC = []          # records of this run: ("ga", pre, result) / ("t3", pre, artefact, post, label)
+T3CAP = {"t3": 24, "ga": 3}
+
+
+def _snap(S):
+    return {"verts": {int(k): (float(v.x), float(v.y)) for k, v in S.vertices.items()},
+            "ownE": {int(k): [int(x) for x in v.ownEdges] for k, v in S.vertices.items()},
+            "ownC": {int(k): [int(x) for x in v.ownCells] for k, v in S.vertices.items()},
+            "edges": {int(k): (int(e.v1.id), int(e.v2.id), bool(getattr(e, "external", False))) for k, e in S.edges.items()},
+            "cells": {int(k): [int(w.id) for w in c.vertices] for k, c in S.cells.items()}}
+
+
+class t3_recorder:
+    """wraps Skeleton.get_artifacts / do_t3_transition for the duration of a parse and keeps value snapshots of the state before and after
+    (a bounded number per run; the wrapped methods are called unchanged)"""
+    def __enter__(self):
+        cls = impl.fs.skeleton.Skeleton
+        self.cls, self.o_t3, self.o_ga = cls, cls.do_t3_transition, cls.get_artifacts
+        o_t3, o_ga = self.o_t3, self.o_ga
+
+        def rec_t3(sk_, artifact):
+            if sum(1 for r in T3REC if r[0] == "t3") >= T3CAP["t3"] or sum(1 for r in T3REC if r[0] == "t3" and r[4] == id(sk_)) >= 2:
+                return o_t3(sk_, artifact)
+            pre = _snap(sk_)
+            o_t3(sk_, artifact)
+            T3REC.append(("t3", pre, [int(a) for a in artifact], _snap(sk_), id(sk_)))
+
+        def rec_ga(sk_):
+            r = o_ga(sk_)
+            if sum(1 for x in T3REC if x[0] == "ga") < T3CAP["ga"] and len(sk_.vertices) <= 900:
+                T3REC.append(("ga", _snap(sk_), [int(a) for a in r]))
+            return r
+        cls.do_t3_transition, cls.get_artifacts = rec_t3, rec_ga
+        return self
+
+    def __exit__(self, *a):
+        self.cls.do_t3_transition, self.cls.get_artifacts = self.o_t3, self.o_ga
+        return False
+
+
+def _mesh_lit(s, vkeys=None, ekeys=None, ckeys=None):
+    own = lambda d, ks: "[" + "; ".join(f"({C.zlit(k)}, {C.zlist(v)})" for k, v in d.items() if ks is None or k in ks) + "]"   # noqa
+    ed = "[" + "; ".join(f"({C.zlit(k)}, ({C.zlit(a)}, {C.zlit(b)}, {C.blit(x)}))" for k, (a, b, x) in s["edges"].items() if ekeys is None or k in ekeys) + "]"
+    return f"(mkM {C.zlist(list(s['verts'].keys()))} {own(s['ownE'], vkeys)} {own(s['ownC'], vkeys)} {ed} {own(s['cells'], ckeys)})"
+
+
+def t3_cases(res, exprs):
+    """every recorded clean-up step against the model.  A T3 contraction reads and writes only the artefact's neighbourhood (its vertices,
+    the mesh edges at them and their other ends, the cells at them): the model is given the vertex ids (for the new id) and the tables
+    restricted to that neighbourhood, its result is compared there, and the harness checks that nothing outside it changed"""
+    from fractions import Fraction
+    for rec in T3REC:
+        if rec[0] == "ga":
+            _, pre, got = rec
+            exprs.append((f"listZ_eqb (get_artifacts {_mesh_lit(pre)}) {C.zlist(got)}", {"what": "get_artifacts", "vertices": len(pre["verts"]), "artefact vertices": got[:12]}))
+            res.count("get_artifacts against Model/SkeletonT3.v")
+            continue
+        _, pre, art, post, _ = rec
+        ek = {e for v in art for e in pre["ownE"][v]}
+        vk = set(art) | {w for e in ek for w in pre["edges"][e][:2]}
+        ck = {c for v in art for c in pre["ownC"][v]}
+        new = [k for k in post["verts"] if k not in pre["verts"]]
+        rp = {"what": "do_t3_transition", "artefact": art, "edges at the artefact": {str(e): list(pre["edges"][e]) for e in sorted(ek)},
+              "cells at the artefact": {str(c): pre["cells"][c] for c in sorted(ck)}}
+        bad = []
+        if len(new) != 1:
+            bad.append(f"T3 contraction of {art} created {len(new)} vertices")
+        else:
+            vk2 = vk | set(new)
+            # frame condition: nothing outside the neighbourhood changed
+            for key, ks in (("ownE", vk2), ("ownC", vk2), ("edges", ek), ("cells", ck)):
+                out_pre = {k: v for k, v in pre[key].items() if k not in ks}
+                out_post = {k: v for k, v in post[key].items() if k not in ks}
+                if out_pre != out_post:
+                    k = next(k for k in set(out_pre) | set(out_post) if out_pre.get(k) != out_post.get(k))
+                    bad.append(f"T3 contraction of {art} changed {key}[{k}] outside the artefact's neighbourhood: {out_pre.get(k)} -> {out_post.get(k)}")
+            mx = Fraction(sum(Fraction(pre["verts"][v][0]) for v in art), len(art))
+            my = Fraction(sum(Fraction(pre["verts"][v][1]) for v in art), len(art))
+            px, py = post["verts"][new[0]]
+            if abs(Fraction(px) - mx) > Fraction(1, 10 ** 9) * (1 + abs(mx)) or abs(Fraction(py) - my) > Fraction(1, 10 ** 9) * (1 + abs(my)):
+                bad.append(f"the vertex made from artefact {art} sits at ({px}, {py}), the mean position is ({float(mx)}, {float(my)})")
+            if any(v in post["verts"] for v in art):
+                bad.append(f"artefact vertices {[v for v in art if v in post['verts']]} survive their contraction")
+            post_r = dict(post, verts={k: post["verts"][k] for k in post["verts"]})
+            exprs.append((f"mesh_eqb (t3 {_mesh_lit(pre, vk, ek, ck)} {C.zlist(art)}) {_mesh_lit(post_r, vk2, ek, ck)}", rp))
+            res.count("T3 contraction against Model/SkeletonT3.v")
+        for b in bad[:2]:
+            res.fail("oracle", b, rp)
+    del T3REC[:]
+
+
 def observe(path, mirror_y, ne):
-    with impl.quiet():
+    with impl.quiet(), t3_recorder():
         sk = impl.fs.skeleton.Skeleton(path, mirror_y=mirror_y)
         contours = [np.array(c) for c in sk.contours]
         v, e, c = sk.create_lattice()
+    with impl.quiet():
         raw = {"vertices": int(sk.vertex_id), "cells": int(sk.cell_id), "cycles": [[w.id for w in cc.vertices] for cc in c.values()],
                "untouched": len(v) == sk.vertex_id and len(c) == sk.cell_id and len(e) == sk.edge_id,
                "edges": [[x.v1.id, x.v2.id] for _, x in sorted(e.items())], "border": [bool(cc.is_border) for _, cc in sorted(c.items())],
@@ -329,12 +426,15 @@ def run(res, tier, seed):
         if os.path.exists(path):
             a = np.array(Image.open(path).convert("L"))
             check_image(res, a[1:-1, 1:-1], None, rng, exprs, "shipped/" + os.path.basename(path), SYMS if tier != "quick" else syms_quick)
+    t3_cases(res, exprs)
     bools, outs = C.coq_eval_bools("C15", IMPORTS, [e for e, _ in exprs], chunk=3)
     for (e, rp), b in zip(exprs, bools):
         res.traces += 1
         if b is not True:
-            res.fail("correspondence", "model != implementation (vertex interning / one cell per contour)" if b is False else "case did not evaluate",
-                     {"correspondence": "Model/Skeleton.v vs skeleton.create_lattice (before clean-up)", "case": rp})
+            t3 = isinstance(rp, dict) and rp.get("what") in ("get_artifacts", "do_t3_transition")
+            res.fail("correspondence", (f"model != implementation ({rp['what']}, Model/SkeletonT3.v)" if t3 else "model != implementation (vertex interning / one cell per contour)")
+                     if b is False else "case did not evaluate",
+                     {"correspondence": "Model/SkeletonT3.v vs skeleton.get_artifacts / do_t3_transition" if t3 else "Model/Skeleton.v vs skeleton.create_lattice (before clean-up)", "case": rp})
 
 
 def search(res, tier, seed, broken):
